@@ -2,7 +2,7 @@
 From Coq Require Import List Arith NArith Bool Lia Sorting.Sorted.
 Import ListNotations.
 Require Import MayV.Rt.TimerThread MayV.Rt.TimerThreadInv MayV.Rt.TimerThreadTac MayV.Rt.TimerThreadPresB MayV.Rt.TimerThreadPresH MayV.Rt.TimerThreadPresC.
-Open Scope N_scope.
+Local Open Scope N_scope.
 
 Lemma removers_step s x s' : stepF s x = Some s' -> forall r,
   (R s' r = R s r /\ x <> RStep r) \/ (x = RStep r) \/ (exists L i, x = Del r L i /\ rpc (R s' r) = R1).
